@@ -101,6 +101,11 @@ pub fn bg_progress_count() -> u64 {
 	BG_PROGRESS.with(|c| c.get())
 }
 
+/// Process-wide event counters the harness reads to show that an exploration
+/// really exercised value-log reads and file removal.
+pub static VLOG_POINTER_READS: std::sync::atomic::AtomicU64 = std::sync::atomic::AtomicU64::new(0);
+pub static VLOG_FILES_REMOVED: std::sync::atomic::AtomicU64 = std::sync::atomic::AtomicU64::new(0);
+
 // ===========================================================================
 // Environment seams
 // ===========================================================================
